@@ -38,8 +38,12 @@ class History:
         self.seq = 0
 
     def rec(self, *fields):
-        self.seq += 1
         lp = self.loop
+        if lp is not None and lp.aborting:
+            # the run is being torn down after a deadlock / iteration-cap report: asyncio cancels the
+            # remaining tasks in set order, which is not part of the simulated execution
+            return (self.seq, lp.iterations, lp._vnow) + fields
+        self.seq += 1
         r = (self.seq, lp.iterations if lp else 0, lp._vnow if lp else 0.0) + fields
         self.recs.append(r)
         return r
